@@ -78,6 +78,8 @@ struct Case {
   std::vector<OpPreempt> oppre;    // op-level preemptions
   // replay-only option (never generated): lift the by-construction exclusion of known finding KF-C02-MCS-SIXREL
   bool allow_blocking_release = false;
+  // compatible nested requests of one thread on one lock (S+S, S+SIX) are generated (C07 only; never on MCSLock)
+  bool allow_nesting = false;
 };
 
 inline std::string
@@ -88,6 +90,7 @@ to_text(const Case &c)
   o << "class " << kClsName[c.cls] << "\n";
   o << "locks " << c.nlocks << "\n";
   if (c.allow_blocking_release) o << "option allow_blocking_release 1\n";
+  if (c.allow_nesting) o << "option allow_nesting 1\n";
   for (int l = 0; l < c.nlocks && l < 2; l++) {
     if (c.initver[l] != 0) o << "initver " << l << " " << c.initver[l] << "\n";
   }
@@ -132,6 +135,7 @@ from_text(const std::string &text, Case &c, std::string &err)
       int v = 0;
       ls >> n >> v;
       if (n == "allow_blocking_release") c.allow_blocking_release = v != 0;
+      if (n == "allow_nesting") c.allow_nesting = v != 0;
     } else if (w == "initver") {
       int l = 0;
       uint32_t v = 0;
